@@ -28,6 +28,9 @@ sys.path.insert(0, os.path.dirname(os.path.abspath(__file__)))
 
 from core import common as C  # noqa: E402
 
+# the implementation under test is imported from ACN_REPO (default /repo): its working tree
+sys.path.insert(0, C.REPO)
+
 
 def budget(P, tier: str, search: bool = False) -> int:
     b = getattr(P, "BUDGET", {"quick": 300, "thorough": 5000, "search": 3000})
@@ -219,7 +222,16 @@ def main() -> int:
         print("ERROR: harness failure while running cases")
         return 2
 
-    disagreements = [r for r in records if r["diffs"]]
+    def _live_diffs(recs):
+        # a case whose oracle failures are all listed open known findings is not counted as a
+        # correspondence break as well (the model follows the repaired behaviour)
+        out = []
+        for r in recs:
+            if r["diffs"] and not (r["failures"] and all(known_match(pid, f, known) for f in r["failures"])):
+                out.append(r)
+        return out
+
+    disagreements = _live_diffs(records)
     searched = 0
     if (proof_broken or disagreements):
         # failing-input search (DESIGN §2.2): bigger budget, oracle on the implementation
@@ -230,7 +242,7 @@ def main() -> int:
             records.extend(run_cases(P, extra, driver))
         except Exception:
             traceback.print_exc()
-        disagreements = [r for r in records if r["diffs"]]
+        disagreements = _live_diffs(records)
 
     # classify failures
     violations = []  # (record, failure)
